@@ -1,8 +1,8 @@
 """C20 — correlation, normalisation and information measures obey their definitions.
 
 Correspondence: utils.crosscov/crosscorr/autocov/autocorr (FFT based), utils.fftconvolve, utils.zscore,
-utils.percent_change, algorithms.seed_corrcoef, CorrelationAnalyzer.xcorr/xcorr_norm,
-algorithms.correlation_spectrum and the entropy family on the real code vs the Lean model
+utils.percent_change, utils.crosscov_vector/autocov_vector, algorithms.seed_corrcoef, CorrelationAnalyzer.xcorr/xcorr_norm,
+SeedCorrelationAnalyzer, NormalizationAnalyzer, algorithms.correlation_spectrum and the entropy family on the real code vs the Lean model
 `Nitime.C20` (direct sums, exact joint counts; for the 1-d covariance lanes and fftconvolve ALSO the
 model's FFT path = naive DFT of the zero-padded inputs, product, inverse, as the code does it).
 Generators are stratified over storage dtypes and amplitude decades (see RULE); every judgement is
@@ -28,13 +28,18 @@ RULE = ('cases from one PRNG state: {crosscov,crosscorr,autocov,autocorr} x {rea
         'each argument scaled independently where the definition is scale-free per argument; every comparison is relative to the '
         "data's own scale; utils.fftconvolve on pairs of sequences of unequal lengths and all four covariance functions on 1-d lanes of every "
         'length 2..70 are compared with BOTH the model FFT path (naive DFT, padded power-of-two length) and the direct sums; '
+        'crosscov_vector / autocov_vector on (1..3, N) channels with nlags None / left out / 0 / 1 / N / between; storage dtypes also boolean; every '
+        'call under a discipline drawn per case: plain, Fortran, strided, reuse, read-only, big-endian, the same for the LAST argument only, or SANDWICH '
+        '(call, ~40 other calls of the family with other options on the same arrays, every handed-out array overwritten, call again: equal; more calls: the '
+        'result still holds); keywords left out when they have their default value; near-constant (relative spread 1e-4) and constant channels where the '
+        'clause has a verdict; Seed/Normalization/CorrelationAnalyzer over the dtype cycle, re-read through NEW analyzers; '
         'distinct = distinct protocol line; non-trivial = non-constant input')
 ASSUMPTIONS = ['zscore / seed_corrcoef inputs have non-zero variance along the axis (relative to their own magnitude), percent_change inputs have non-zero mean (monitored: generators avoid them, the count of skipped degenerate lanes is reported)',
                'amplitude domain: N*max|x|^2 and the smallest squares that matter are NORMAL numbers of the working dtype (float64: data in 1e-140..1e142, float32: 1e-13..1e15) — outside it even numpy\'s own mean/std/dot of the definition over- or underflow; percent_change (linear) is exercised over 1e-300..1e300',
                'binary64 / binary32 rounding inside the routines is not modelled: numeric outputs are compared at 1e-9 (64-bit data) or 2e-4 (32-bit data) of the largest magnitude (+ an absolute term proportional to the input scale for FFT round-off)']
 TRUSTED_EXTRA = ['scipy.fftpack.fft/ifft inside utils.fftconvolve are modelled by their documented semantics (naive O(L^2) DFT of the zero-padded input, inverse with 1/L); the convolution theorem for THAT model is proved (fftconvolve_is_linear_convolution, crosscov_fft_is_lagged_sum); that scipy computes the DFT is trusted and checked per run by correspondence (ops fftconv / covfft)',
                  'np.correlate(a, v, "full") = linear convolution of a with conj(reversed v); np.corrcoef = Pearson coefficient; np.mean/np.std (population) ; np.roll; itertools.product(set(x)…) — by their documented semantics',
-                 'the theorems are about the R / C instances of the Scalar-polymorphic model text; the driver runs the Float / Float-pair instances of the same definitions (parametricity unproved); data stored in narrower dtypes are run by the model as the binary64 values they denote']
+                 'the theorems are about the R / C instances of the Scalar-polymorphic model text; the driver runs the Float / Float-pair instances of the same definitions (parametricity unproved); data stored in narrower dtypes are run by the model as the binary64 values they denote (integer / boolean data: the model embeds the integers, `ofInt`)']
 
 
 def U():
@@ -108,6 +113,17 @@ def cmp_scalar(atol, rtol=1e-9):
     return f
 
 
+def cmp_ecc(impl, model):
+    """entropy_cc = sqrt(MI / mean entropy): round-off of 1e-16 in MI = 0 (independent variables) is 1e-8 after the root, or
+    nan when it is negative; the comparison is made on the SQUARES (abs 1e-9), a nan is accepted against a square <= 1e-9"""
+    if not (impl.startswith('ok ') and model.startswith('ok ')):
+        return impl == model
+    a, b = parse_flist(impl[3:])[0], parse_flist(model[3:])[0]
+    if a != a or b != b:
+        return (a != a and b != b) or (a != a and b * b <= 1e-9) or (b != b and a * a <= 1e-9)
+    return abs(a * a - b * b) <= 1e-9
+
+
 def cmp_two_paths(cplx, atol, rtol):
     """model line 'ok <FFT path> ; <direct path>' (flat vectors): the implementation must agree with BOTH model
     paths and the two model paths with each other"""
@@ -123,12 +139,16 @@ def cmp_two_paths(cplx, atol, rtol):
     return f
 
 
-def gen_array(nr, shape, cplx, kind, offsets=(10.0, -3.0, 100.0)):
+def gen_array(nr, shape, cplx, kind, offsets=(10.0, -3.0, 100.0), spread=1e-4):
     n = int(np.prod(shape))
     if kind == 'int':
         a = nr.randint(-5, 6, size=n).astype(float)
     elif kind == 'offset':
         a = nr.randn(n) + nr.choice(list(offsets))
+    elif kind == 'nearconst':      # an ALMOST constant channel: relative spread 1e-4 (3e-2 for 32-bit storage: ~1e6 ulp either way),
+        a = nr.choice([1.0, -2.5]) * (1.0 + spread * nr.randn(n))      # inside every sigma != 0 / mean != 0 guard
+    elif kind == 'const':          # a constant channel (only where the clause has a verdict for it)
+        a = np.full(n, nr.choice([2.5, -1.0, 0.0]))
     else:
         a = nr.randn(n)
     if cplx:
@@ -141,10 +161,10 @@ def gen_array(nr, shape, cplx, kind, offsets=(10.0, -3.0, 100.0)):
 # amplitudes in which the data's second moments are normal numbers of the storage dtype, and over the
 # storage dtypes; all judgements are relative to the data's own magnitude.
 DT = {'f8': np.float64, 'f4': np.float32, 'c16': np.complex128, 'c8': np.complex64,
-      'i2': np.int16, 'i4': np.int32, 'i8': np.int64, 'u1': np.uint8}
-REAL_DT = ['f8', 'f4', 'f8', 'i2', 'f8', 'f4', 'i8', 'f8', 'u1', 'f8', 'i4']
+      'i2': np.int16, 'i4': np.int32, 'i8': np.int64, 'u1': np.uint8, 'b1': np.bool_}
+REAL_DT = ['f8', 'f4', 'f8', 'i2', 'f8', 'f4', 'i8', 'b1', 'f8', 'u1', 'f8', 'i4']
 CPLX_DT = ['c16', 'c8', 'c16']
-DT_NAME = {'f8': 'real', 'c16': 'complex', 'f4': 'float32', 'c8': 'complex64', 'i2': 'int', 'i4': 'int', 'i8': 'int', 'u1': 'int'}
+DT_NAME = {'f8': 'real', 'c16': 'complex', 'f4': 'float32', 'c8': 'complex64', 'i2': 'int', 'i4': 'int', 'i8': 'int', 'u1': 'int', 'b1': 'bool'}
 # decades for quantities QUADRATIC in the data (second moments must stay normal numbers of the dtype)
 EXP2 = {'d': [0, -16, 140, -7, 3, -140, 9, -100, 0, 100, -30, 30, -60, 60, -9, 6, -3, -120, 120, -13, 16, -80, 80, -45, 45, -20, 20],
         's': [0, -7, 13, -13, 3, -3, 6, -10, 0, 10, -5, 9]}
@@ -185,11 +205,13 @@ def gen_data(nr, shape, cplx, kind, dt, e, positive=False):
     """an array of storage dtype `dt`: float kinds = gen_array(...) * 10**e cast to the dtype; integer kinds =
     integers of a magnitude class chosen by e"""
     n = int(np.prod(shape))
+    if dt == 'b1':
+        return (nr.rand(n) < (0.75 if positive else 0.5)).reshape(shape)
     if dt[0] in 'iu':
         hi = INT_HI[dt][e % 3]
         lo = 1 if positive else (0 if dt == 'u1' else -hi)
         return nr.randint(lo, hi + 1, size=n).astype(DT[dt]).reshape(shape)
-    a = gen_array(nr, shape, cplx, kind, offsets=(10.0, -3.0, 100.0) if prec(dt) == 'd' else (4.0, -3.0))
+    a = gen_array(nr, shape, cplx, kind, offsets=(10.0, -3.0, 100.0) if prec(dt) == 'd' else (4.0, -3.0), spread=1e-4 if prec(dt) == 'd' else 3e-2)
     if positive:
         a = np.abs(a) + 0.5
     with np.errstate(all='ignore'):
@@ -220,7 +242,76 @@ def gen_shape(rng, tier, nmax):
 
 
 # ------------------------------------------------------------------ calling disciplines
-VARIANTS = ['plain', 'plain', 'fortran', 'strided', 'reuse']
+# '<layout>2': only the LAST array argument is laid out that way (the others are plain private copies)
+VARIANTS = ['plain', 'plain', 'fortran', 'strided', 'reuse', 'readonly', 'bigendian', 'sandwich', 'sandwich', 'readonly2', 'strided2', 'bigendian2',
+            'fortran2']
+
+
+class SandwichDiffers(Exception):
+    pass
+
+
+class ResultChangedLater(Exception):
+    pass
+
+
+def snapshot(r):
+    """a private, comparable copy of what a call handed out"""
+    if isinstance(r, (tuple, list)):
+        return [snapshot(v) for v in r]
+    if hasattr(r, 'data') and not isinstance(r, np.ndarray) and isinstance(getattr(r, 'data'), np.ndarray):
+        return np.array(r.data, copy=True)
+    return np.array(r, copy=True)
+
+
+def same_snapshot(a, b):
+    if isinstance(a, list):
+        return isinstance(b, list) and len(a) == len(b) and all(same_snapshot(p_, q_) for p_, q_ in zip(a, b))
+    return a.shape == b.shape and a.dtype == b.dtype and bool(np.array_equal(a, b, equal_nan=(a.dtype.kind in 'fc')))
+
+
+def perturbation(args):
+    """PERTURBATION phase of a sandwich: the entry points of the covariance / normalisation / information family with
+    other option values on the caller's arrays; everything they hand out is scribbled on (a caller may do that)"""
+    import warnings
+    import importlib
+    from histories import scribble
+    u, A = U(), TSA()
+    E = importlib.import_module('nitime.algorithms.entropy')
+    th = []
+    for a in args:
+        if a.dtype.kind in 'US':
+            continue
+        th += [lambda a=a: u.remove_bias(a, -1), lambda a=a: u.remove_bias(a, 0), lambda a=a: u.zscore(a), lambda a=a: u.zscore(a, 0),
+               lambda a=a: u.percent_change(a), lambda a=a: u.percent_change(a, 0), lambda a=a: u.autocov(a),
+               lambda a=a: u.autocov(a, axis=0, all_lags=True, debias=False, normalize=False), lambda a=a: u.autocorr(a, all_lags=True),
+               lambda a=a: u.autocorr(a, normalize=False), lambda a=a: u.fftconvolve(a, a, axis=-1)]
+        if a.ndim == 2:
+            th += [lambda a=a: u.autocov_vector(a), lambda a=a: u.autocov_vector(a, nlags=1), lambda a=a: A.seed_corrcoef(a[0], a)]
+    if len(args) >= 2:
+        a, b = args[0], args[1]
+        if a.dtype.kind not in 'US' and b.dtype.kind not in 'US':
+            th += [lambda: u.crosscov(a, b), lambda: u.crosscov(a, b, axis=0, all_lags=True, debias=False, normalize=False),
+                   lambda: u.crosscorr(a, b, all_lags=True), lambda: u.crosscorr(b, a, normalize=False), lambda: u.fftconvolve(a, b, axis=-1),
+                   lambda: u.fftconvolve(a.ravel(), b.ravel(), axis=0), lambda: A.seed_corrcoef(a, b), lambda: A.seed_corrcoef(b, a)]
+            if a.ndim == 2 and b.ndim == 2:
+                th += [lambda: u.crosscov_vector(a, b), lambda: u.crosscov_vector(b, a, nlags=2)]
+            if a.ndim == 1 and b.ndim == 1:
+                th += [lambda: A.correlation_spectrum(a, b), lambda: A.correlation_spectrum(b, a, norm=True)]
+    if all(a.ndim == 1 and a.size <= 24 for a in args):
+        a, b = args[0], args[-1]
+        th += [lambda: E.entropy(a), lambda: E.entropy(a, b), lambda: E.conditional_entropy(a, b), lambda: E.mutual_information(b, a),
+               lambda: E.entropy_cc(a, b)]
+        if a.size <= 10:
+            th += [lambda: E.transfer_entropy(a, b, lag=2), lambda: E.transfer_entropy(b, a)]
+    with warnings.catch_warnings():
+        warnings.simplefilter('ignore')
+        with np.errstate(all='ignore'):
+            for t in th:
+                try:
+                    scribble(t())
+                except Exception:  # noqa
+                    pass
 
 
 def lay(a, variant):
@@ -228,6 +319,12 @@ def lay(a, variant):
     a = np.asarray(a)
     if variant == 'fortran' and a.ndim > 1:
         return np.asfortranarray(a.copy())
+    if variant == 'readonly':
+        r = a.copy()
+        r.flags.writeable = False
+        return r
+    if variant == 'bigendian':
+        return a.astype(a.dtype.newbyteorder('>'))
     if variant in ('strided', 'fortran'):
         big = np.zeros(tuple(2 * s_ + 1 for s_ in a.shape), dtype=a.dtype)
         v = big[tuple(slice(1, None, 2) for _ in a.shape)]
@@ -257,6 +354,30 @@ def disciplined(f, arrays, variant):
         for b, a in zip(bufs, arrays):
             b[...] = a
         args = bufs
+    elif variant == 'sandwich':
+        # call; the same and the other entry points with other options on the same arrays, scribbling on everything handed out
+        # (the first result included); call again with the equal arguments: equal result; after further calls the result
+        # handed out still holds what it held
+        from histories import scribble
+        args = [a.copy() for a in arrays]
+        r1 = f(*args)
+        s1 = snapshot(r1)
+        perturbation(args)
+        scribble(r1)
+        r2 = f(*args)
+        s2 = snapshot(r2)
+        if not same_snapshot(s1, s2):
+            raise SandwichDiffers()
+        perturbation(args)
+        if not same_snapshot(snapshot(r2), s2):
+            raise ResultChangedLater()
+        r3 = f(*args)
+        if not same_snapshot(snapshot(r2), s2) or not same_snapshot(snapshot(r3), s2):
+            raise ResultChangedLater()
+        mutated = any(not np.array_equal(g, a) for g, a in zip(args, arrays))
+        return r2, mutated
+    elif variant.endswith('2'):
+        args = [a.copy() for a in arrays[:-1]] + [lay(arrays[-1], variant[:-1])]
     else:
         args = [lay(a, variant) for a in arrays]
     r = f(*args)
@@ -273,11 +394,18 @@ def with_flag(res):
 
 
 # ------------------------------------------------------------------ cases
-def cov_call(fn, x, y, axis, al, db, nm, pass_db=True):
+COV_DEFAULTS = [('axis', -1), ('all_lags', False), ('debias', True), ('normalize', True)]
+
+
+def cov_call(fn, x, y, axis, al, db, nm, pass_db=True, omit=0):
+    """omit: bit mask over COV_DEFAULTS — a keyword whose value IS the default is left out when its bit is set"""
     u = U()
     kw = dict(axis=axis, all_lags=al, normalize=nm)
     if pass_db:
         kw['debias'] = db
+    for i, (k_, dv) in enumerate(COV_DEFAULTS):
+        if omit >> i & 1 and k_ in kw and kw[k_] == dv and type(kw[k_]) is type(dv):
+            del kw[k_]
     if fn in ('crosscov', 'crosscorr'):
         return getattr(u, fn)(x, y, **kw)
     return getattr(u, fn)(x, **kw)
@@ -291,7 +419,15 @@ def restore(tok, cplx, dt):
     return a.astype(DT[dt])
 
 
-def mk_cov_case(fn, x, y, axis, al, db, nm, variant='plain', dts=('f8', 'f8'), paths=False):
+def int_kinds(dts):
+    return all(d[0] in 'iub' for d in dts)
+
+
+def int_tok(a):
+    return ilist([int(v) for v in np.asarray(a).astype(np.int64).reshape(-1)])
+
+
+def mk_cov_case(fn, x, y, axis, al, db, nm, variant='plain', dts=('f8', 'f8'), paths=False, omit=0):
     """x, y in their storage dtypes `dts`; the protocol line carries the stored values as binary64 (complex for both
     as soon as one of them is complex).  paths=True (1-d only): op `covfft`, the model prints its FFT path and its
     direct path."""
@@ -299,27 +435,72 @@ def mk_cov_case(fn, x, y, axis, al, db, nm, variant='plain', dts=('f8', 'f8'), p
     wx = wide(x).astype(complex) if cplx else wide(x)
     wy = None if y is None else (wide(y).astype(complex) if cplx else wide(y))
     sh, xd = arr_tok(wx)
+    ik = int_kinds(dts if y is not None else dts[:1])     # integer / boolean recordings: the model embeds the integers itself
+    kind = 'i' if ik else 'c' if cplx else 'r'
+    if ik:
+        xd = int_tok(x)
     if paths:
-        line = 'C20 covfft %s %s %d %d %d %s' % (fn, 'c' if cplx else 'r', al, db, nm, xd)
+        line = 'C20 covfft %s %s %d %d %d %s' % (fn, kind, al, db, nm, xd)
     else:
-        line = 'C20 %s %s %d %d %d %d %s %s' % (fn, 'c' if cplx else 'r', axis, al, db, nm, sh, xd)
+        line = 'C20 %s %s %d %d %d %d %s %s' % (fn, kind, axis, al, db, nm, sh, xd)
     if y is not None:
-        line += ' ' + arr_tok(wy)[1]
+        line += ' ' + (int_tok(y) if ik else arr_tok(wy)[1])
     if y is None:
-        f = lambda a: cov_call(fn, a, None, axis, bool(al), bool(db), bool(nm))
+        f = lambda a: cov_call(fn, a, None, axis, bool(al), bool(db), bool(nm), omit=omit)
         impl = canon_nd(with_flag(call(lambda: disciplined(f, [x], variant))), cplx)
     else:
-        f = lambda a, b: cov_call(fn, a, b, axis, bool(al), bool(db), bool(nm))
+        f = lambda a, b: cov_call(fn, a, b, axis, bool(al), bool(db), bool(nm), omit=omit)
         impl = canon_nd(with_flag(call(lambda: disciplined(f, [x, y], variant))), cplx)
     N = x.shape[axis]
     mag = magnitude(x, y if y is not None else x) * N
     pr = 's' if 's' in [prec(d) for d in dts] else 'd'
     meta = {'op': 'cov', 'fn': fn, 'x': arr_tok(wx), 'y': None if y is None else arr_tok(wy), 'cplx': cplx,
-            'axis': axis, 'al': al, 'db': db, 'nm': nm, 'variant': variant, 'dts': list(dts), 'paths': paths}
+            'axis': axis, 'al': al, 'db': db, 'nm': nm, 'variant': variant, 'dts': list(dts), 'paths': paths, 'omit': omit}
     nt = bool(np.ptp(np.abs(wx)) > 0)
     name = dt_name(dts, cplx)
     cmp = cmp_two_paths(cplx, ATOLF[pr] * mag, RTOL[pr]) if paths else cmp_nd(cplx, ATOLF[pr] * mag, RTOL[pr])
     return Case(line, impl, 'cov/%s/%s' % (fn, name), cmp=cmp, meta=meta, nontrivial=nt)
+
+
+def vec_stratum(x, y, dts, cplx):
+    if all(d == 'b1' for d in dts):
+        return 'bool'
+    if int_kinds(dts):
+        rt = np.result_type(x, y)      # numpy multiplies the samples in THIS type
+        if rt.kind in 'iu' and float(np.abs(wide(x)).max()) * float(np.abs(wide(y)).max()) > np.iinfo(rt).max:
+            return 'int-wide'          # a product of two samples does not fit the storage type
+        return 'int'
+    return dt_name(dts, cplx)
+
+
+def mk_covvec_case(fn, x, y, nlags, variant='plain', dts=('f8', 'f8')):
+    """utils.crosscov_vector(x, y, nlags) / autocov_vector(x, nlags) on (nc, N) channels; nlags None | 'omit' | int"""
+    cplx = bool(np.iscomplexobj(x) or (y is not None and np.iscomplexobj(y)))
+    yy = x if y is None else y
+    wx = wide(x).astype(complex) if cplx else wide(x)
+    wy = wide(yy).astype(complex) if cplx else wide(yy)
+    ik = int_kinds(dts if y is not None else dts[:1])
+    kind = 'i' if ik else 'c' if cplx else 'r'
+    tok = (lambda a, w: int_tok(a)) if ik else (lambda a, w: arr_tok(w)[1])
+    nl_tok = 'none' if nlags in (None, 'omit') else '%d' % nlags
+    N = x.shape[1]
+    if y is None:
+        line = 'C20 acovvec %s %s %d %s' % (kind, nl_tok, N, tok(x, wx))
+    else:
+        line = 'C20 covvec %s %s %d %s %s' % (kind, nl_tok, N, tok(x, wx), tok(y, wy))
+    kw = {} if nlags == 'omit' else {'nlags': nlags}
+    if y is None:
+        f = lambda a: U().autocov_vector(a, **kw)
+        impl = canon_nd(with_flag(call(lambda: disciplined(f, [x], variant))), cplx)
+    else:
+        f = lambda a, b: U().crosscov_vector(a, b, **kw)
+        impl = canon_nd(with_flag(call(lambda: disciplined(f, [x, y], variant))), cplx)
+    pr = 's' if 's' in [prec(d) for d in dts] else 'd'
+    mag = magnitude(x, yy)
+    meta = {'op': 'covvec', 'fn': fn, 'x': arr_tok(wx), 'y': None if y is None else arr_tok(wy), 'cplx': cplx, 'nlags': nlags,
+            'variant': variant, 'dts': list(dts)}
+    return Case(line, impl, 'covvec/%s/%s' % (fn, vec_stratum(x, yy, dts, cplx)), cmp=cmp_nd(cplx, ATOLF[pr] * mag, RTOL[pr]), meta=meta,
+                nontrivial=bool(np.ptp(np.abs(wx)) > 0))
 
 
 def mk_fftconv_case(a, b, variant, dts):
@@ -342,12 +523,15 @@ def seq_gen(rng, n, k, canonical=False):
     return [rng.choice(labels) for _ in range(n)]
 
 
-LABELS = ['i8', 'i1', 'f8', 'u1', 'i8', 'f4', 'tiny', 'i2', 'huge', 'str', 'i8', 'i4']
+LABELS = ['i8', 'i1', 'f8', 'u1', 'i8', 'f4', 'tiny', 'i2', 'huge', 'str', 'i8', 'i4', 'b1', 'b1', 'b1']
 
 
 def label_cast(s_, lab):
     """an injective re-expression of the integer labels (-20..77) in another storage type"""
     a = np.array(s_)
+    if lab == 'b1':       # boolean recordings: possible when the sequence has at most two symbols (else: plain integers)
+        u_ = sorted(set(s_))
+        return a == u_[-1] if len(u_) <= 2 else a
     if lab == 'i8':
         return a
     if lab in ('i1', 'i2', 'i4'):
@@ -380,6 +564,8 @@ def ent_impl(fn, seqs, lag=None, variant='plain', lab='i8'):
         if fn == 'ecc':
             with np.errstate(all='ignore'):
                 return E.entropy_cc(*xs)
+        if lag == 1 and len(xs[0]) % 2:
+            return E.transfer_entropy(xs[0], xs[1])        # lag=1 is the default: left out
         return E.transfer_entropy(xs[0], xs[1], lag=lag)
     v, mutated = disciplined(f, xs, variant)
     if mutated:
@@ -391,7 +577,7 @@ def mk_ent_case(fn, seqs, lag=None, variant='plain', lab='i8'):
     line = 'C20 %s %s%s' % (fn if fn != 'te' else 'te', ('%d ' % lag) if fn == 'te' else '', ' '.join(ilist(s) for s in seqs))
     impl = call(lambda: ent_impl(fn, seqs, lag, variant, lab))
     meta = {'op': 'ent', 'fn': fn, 'seqs': [list(s) for s in seqs], 'lag': lag, 'variant': variant, 'lab': lab}
-    return Case(line, impl, 'entropy/' + fn + ('%d' % len(seqs) if fn == 'entropy' else ''), cmp=cmp_scalar(1e-9), meta=meta,
+    return Case(line, impl, 'entropy/' + fn + ('%d' % len(seqs) if fn == 'entropy' else ''), cmp=cmp_ecc if fn == 'ecc' else cmp_scalar(1e-9), meta=meta,
                 nontrivial=len(set(seqs[0])) > 1)
 
 
@@ -403,7 +589,7 @@ def analyzer_reads(data, order):
     {name: values held at the END by the object handed out at read time}, problems"""
     import nitime.timeseries as ts
     import nitime.analysis as nta
-    data = np.array(data, dtype=float)
+    data = np.array(data)          # in its storage dtype
     T = ts.TimeSeries(data.copy(), sampling_interval=1)
     C = nta.CorrelationAnalyzer(T)
     handed, at_read, problems = {}, {}, []
@@ -423,22 +609,45 @@ def analyzer_reads(data, order):
             problems.append('earlier-result-changed:' + name)
         if not np.array_equal(vals(getattr(C, ATTR[name])), end[name], equal_nan=True):
             problems.append('reread-differs:' + name)
+    # the caller overwrites everything it was handed; a NEW analyzer on the same series must give the same values
+    from histories import scribble
+    for name in order:
+        scribble(handed[name])
+    if not np.array_equal(np.asarray(T.data), data):
+        problems.append('input-mutated-by-overwriting-a-result')
+    C2 = nta.CorrelationAnalyzer(T)
+    for name in order:
+        if not np.array_equal(vals(getattr(C2, ATTR[name])), at_read[name], equal_nan=True):
+            problems.append('new-analyzer-differs:' + name)
     return end, problems
 
 
-def cmp_xcorr(atol):
+def cmp_xcorr(atol, rtol=1e-9):
     def f(impl, model):
         if not (impl.startswith('ok ') and model.startswith('ok ')):
             return False
         a = parse_flist(impl[3:])
-        return any(close_c(a, parse_flist(v), 1e-9, atol) for v in model[3:].split(' ; '))
+        return any(close_c(a, parse_flist(v), rtol, atol) for v in model[3:].split(' ; '))
     return f
 
 
-def mk_xcorr_cases(order, data):
-    """one Case per output read in `order` (a tuple of 'raw' | 'norm' | 'cc') on one analyzer object"""
-    data = np.asarray(data, dtype=float)
-    res = call(lambda: analyzer_reads(data, order))
+def xcorr_stratum(sd, dt):
+    """np.correlate accumulates in the storage type: 'int' when every sum of N products fits it, else 'int-wide' (booleans: the 'sum' is a logical or)"""
+    if dt == 'f8':
+        return ''
+    if dt == 'b1':
+        return '/int-wide'
+    if dt[0] in 'iu':
+        return '/int' if sd.shape[1] * float(np.abs(wide(sd)).max()) ** 2 <= np.iinfo(sd.dtype).max else '/int-wide'
+    return '/' + DT_NAME[dt]
+
+
+def mk_xcorr_cases(order, data, dt='f8'):
+    """one Case per output read in `order` (a tuple of 'raw' | 'norm' | 'cc') on one analyzer object; `data` in its storage dtype `dt`"""
+    sd = np.asarray(data).astype(DT[dt])
+    data = wide(sd)
+    strat = xcorr_stratum(sd, dt)
+    res = call(lambda: analyzer_reads(sd, order))
     out = []
     seq = '-'.join(order)
     for name in order:
@@ -453,21 +662,56 @@ def mk_xcorr_cases(order, data):
         else:
             impl, problems = 'ok ' + flist(res[0][name]), res[1]
         base = 'analyzer/' + ATTR[name]
-        clause = base if len(order) == 1 else 'analyzer/sequence/%s/%s' % (seq, ATTR[name])
-        meta = {'op': 'xcorr', 'which': name, 'order': list(order), 'data': data.tolist(), 'base': base,
+        clause = base + strat if len(order) == 1 else 'analyzer/sequence/%s/%s%s' % (seq, ATTR[name], strat)
+        meta = {'op': 'xcorr', 'which': name, 'order': list(order), 'data': data.tolist(), 'base': base, 'dt': dt,
                 'problems': [p_ for p_ in problems if p_.startswith('input') or p_.endswith(':' + name)]}
-        out.append(Case(line, impl, clause, cmp=cmp_xcorr(1e-12 * float(np.abs(data).max()) ** 2 * data.shape[1]), meta=meta))
+        out.append(Case(line, impl, clause, cmp=cmp_xcorr(ATOLF[prec(dt)] * float(np.abs(data).max()) ** 2 * data.shape[1], RTOL[prec(dt)]), meta=meta))
     return out
 
 
-def norm_impl(fn, x, axis, variant):
+def norm_impl(fn, x, axis, variant, via=None):
+    """via: None = utils.zscore / percent_change(x, axis); 'default' = the axis argument left out (axis must be -1);
+    'analyzer' = NormalizationAnalyzer(TimeSeries(x)).z_score / .percent_change on a NEW analyzer at every call"""
     f = U().zscore if fn == 'zscore' else U().percent_change
-    return canon_nd(with_flag(call(lambda: disciplined(lambda a: f(a, axis), [x], variant))))
+    if via == 'default':
+        g = lambda a: f(a)
+    elif via == 'analyzer':
+        def g(a):
+            import nitime.timeseries as ts
+            import nitime.analysis as nta
+            A = nta.NormalizationAnalyzer(ts.TimeSeries(a, sampling_interval=1))
+            return getattr(A, 'z_score' if fn == 'zscore' else 'percent_change').data
+    else:
+        g = lambda a: f(a, axis)
+    return canon_nd(with_flag(call(lambda: disciplined(g, [x], variant))))
 
 
-def seedcc_impl(seedv, targ, one_d, variant):
+def seedcc_impl(seedv, targ, one_d, variant, via=None):
+    """via='analyzer': SeedCorrelationAnalyzer(TimeSeries(seed), TimeSeries(targets)).corrcoef on a NEW analyzer at every call"""
     f = lambda s_, t_: np.atleast_1d(TSA().seed_corrcoef(s_, t_))
+    if via == 'analyzer':
+        def f(s_, t_):
+            import nitime.timeseries as ts
+            import nitime.analysis as nta
+            A = nta.SeedCorrelationAnalyzer(ts.TimeSeries(s_, sampling_interval=1), ts.TimeSeries(t_, sampling_interval=1))
+            return np.atleast_1d(np.asarray(A.corrcoef))
     r = with_flag(call(lambda: disciplined(f, [seedv, targ[0] if one_d else targ], variant)))
+    return r if isinstance(r, str) else 'ok ' + flist(r)
+
+
+def corrspec_impl(a, b, nm, variant, opts):
+    kw = {}
+    if opts & 1:
+        kw['Fs'] = 250.0
+    if not (opts & 2 and not nm):
+        kw['norm'] = bool(nm)
+
+    def f(p_, q_):
+        fr, c = TSA().correlation_spectrum(p_, q_, **kw)
+        if len(fr) != len(c) or not np.allclose(fr, np.arange(len(p_) // 2 + 1) * kw.get('Fs', 2 * np.pi) / len(p_)):
+            raise IndexError('frequency axis')
+        return c
+    r = with_flag(call(lambda: disciplined(f, [a, b], variant)))
     return r if isinstance(r, str) else 'ok ' + flist(r)
 
 
@@ -501,7 +745,7 @@ def cases(rng, tier, seed):
         place in the first argument's precision)."""
         cplx = rng.random() < 0.45
         dtx = dts_c() if cplx else dts_r()
-        kind = rng.choice(['int', 'randn', 'offset'])
+        kind = rng.choice(['int', 'randn', 'offset', 'int', 'randn', 'offset', 'nearconst', 'const'])
         u_ = rng.random()
         dty = dtx
         if need_y and u_ >= 0.8:        # another storage dtype (real with complex, single with double, integer with float)
@@ -520,7 +764,15 @@ def cases(rng, tier, seed):
         shape, axis, ax = gen_shape(rng, tier, nmax)
         x, y, dts = two_arrays(shape, shape, fn.startswith('cross'))
         al, db, nm = rng.randint(0, 1), rng.randint(0, 1), rng.randint(0, 1)
-        out.append(mk_cov_case(fn, x, y, axis, al, db, nm, rng.choice(VARIANTS), dts))
+        out.append(mk_cov_case(fn, x, y, axis, al, db, nm, rng.choice(VARIANTS), dts, omit=rng.choice([0, 0, 15, rng.randrange(16)])))
+    # --- crosscov_vector / autocov_vector: (nc, N) channels, nlags None / left out / 0 / 1 / N / in between, every storage dtype for
+    # EACH argument, every layout and discipline
+    for i in range(60 * k):
+        fn = ['crosscov_vector', 'autocov_vector'][i % 2]
+        nc, N = rng.randint(1, 3), rng.choice([2, 3, 4, 5, 8, rng.randint(2, min(nmax, 24))])
+        x, y, dts = two_arrays([nc, N], [nc, N], fn == 'crosscov_vector')
+        nl = rng.choice([None, 'omit', 0, 1, N, rng.randint(1, N)])
+        out.append(mk_covvec_case(fn, x, y, nl, rng.choice(VARIANTS), dts))
     # every lane length 2..70 (FFT padding parities, odd fast lengths), 1-d, in every run: implementation vs the model's
     # FFT path (naive DFT of the padded power-of-two length) AND vs the direct sums
     fns = ['crosscov', 'crosscorr', 'autocov', 'autocorr']
@@ -528,7 +780,7 @@ def cases(rng, tier, seed):
         for N in range(2, 71 if tier == 'quick' else 200):
             fn = fns[(N + seed + rep_) % 4]
             x, y, dts = two_arrays([N], [N], fn.startswith('cross'))
-            out.append(mk_cov_case(fn, x, y, -1, rng.randint(0, 1), rng.randint(0, 1), rng.randint(0, 1), VARIANTS[1 + N % 4], dts, paths=True))
+            out.append(mk_cov_case(fn, x, y, -1, rng.randint(0, 1), rng.randint(0, 1), rng.randint(0, 1), VARIANTS[1 + N % 7], dts, paths=True))
     # utils.fftconvolve itself on pairs of sequences of any two lengths (1 included)
     for i in range(40 * k):
         na, nb = rng.choice([1, 2, 3, rng.randint(1, nmax)]), rng.choice([1, 2, 5, rng.randint(1, nmax), rng.randint(1, nmax)])
@@ -549,54 +801,72 @@ def cases(rng, tier, seed):
         dt = dts_r()
         pr = prec(dt)
         if fn == 'pchange':
-            x = gen_data(nr, shape, False, 'randn', dt, exp1[pr](), positive=True)
-            if dt != 'u1' and rng.random() < 0.3:
+            x = gen_data(nr, shape, False, rng.choice(['randn', 'randn', 'nearconst', 'const']), dt, exp1[pr](), positive=True)
+            if dt not in ('u1', 'b1') and rng.random() < 0.3:
                 x = -x
+            if dt == 'b1' and not wide(x).sum(axis=ax).all():      # an all-False lane has mean 0
+                skipped += 1
+                continue
         else:
-            x = gen_data(nr, shape, False, rng.choice(['int', 'randn', 'offset']), dt, exp2[pr]())
+            x = gen_data(nr, shape, False, rng.choice(['int', 'randn', 'offset', 'nearconst']), dt, exp2[pr]())
             if degenerate(x, ax):
                 skipped += 1
                 continue
         sh, xd = arr_tok(wide(x))
         variant = rng.choice(VARIANTS)
-        impl = norm_impl(fn, x, axis, variant)
-        out.append(Case('C20 %s %d %s %s' % (fn, axis, sh, xd), impl, 'norm/' + fn + ('' if dt == 'f8' else '/' + DT_NAME[dt]),
+        via = None
+        if ax == len(shape) - 1 and rng.random() < 0.5:       # the last axis is the default: leave the argument out / go through the analyzer
+            via, axis = rng.choice(['default', 'analyzer']), -1
+        impl = norm_impl(fn, x, axis, variant, via)
+        out.append(Case('C20 %s %d %s %s' % (fn, axis, sh, xd), impl,
+                        ('analyzer/normalization/' if via == 'analyzer' else 'norm/') + fn + ('' if dt == 'f8' else '/' + DT_NAME[dt]),
                         cmp=cmp_nd(False, RTOL[pr], RTOL[pr]),
-                        meta={'op': fn, 'x': arr_tok(wide(x)), 'axis': axis, 'variant': variant, 'dt': dt}))
+                        meta={'op': fn, 'x': arr_tok(wide(x)), 'axis': axis, 'variant': variant, 'dt': dt, 'via': via}))
     # --- seed_corrcoef (scale-free in each argument separately)
     for _ in range(40 * k):
         n = rng.randint(3, min(nmax, 40))
         nt = rng.randint(1, 5)
         dt = dts_r()
-        pr = prec(dt)
+        dt2 = dt if rng.random() < 0.7 else dts_r()        # the targets in another storage dtype than the seed
+        pr = 's' if 's' in (prec(dt), prec(dt2)) else 'd'
         es, et = pair_exp[pr]()
         seedv = gen_data(nr, [n], False, 'offset', dt, es)
-        targ = gen_data(nr, [nt, n], False, rng.choice(['randn', 'offset']), dt, et)
+        targ = gen_data(nr, [nt, n], False, rng.choice(['randn', 'offset']), dt2, et)
         if degenerate(seedv, 0) or degenerate(targ, 1):
             skipped += 1
             continue
         if rng.random() < 0.3:     # perfectly (anti)correlated row
             with np.errstate(all='ignore'):
-                if dt[0] in 'iu':
+                if dt2[0] in 'iub' or dt[0] in 'iub':
                     targ[0] = seedv
                 else:
-                    targ[0] = (wide(seedv) * rng.choice([2.0, -0.5]) * 10.0 ** (et - es) + np.abs(wide(targ[0])).mean()).astype(DT[dt])
+                    targ[0] = (wide(seedv) * rng.choice([2.0, -0.5]) * 10.0 ** (et - es) + np.abs(wide(targ[0])).mean()).astype(DT[dt2])
             if degenerate(targ, 1):
                 skipped += 1
                 continue
         one_d = nt == 1 and rng.random() < 0.5
         variant = rng.choice(VARIANTS)
-        impl = seedcc_impl(seedv, targ, one_d, variant)
-        clause = 'seed_corrcoef' + ('/' + DT_NAME[dt] if dt != 'f8' else '/scaled' if (es, et) != (0, 0) else '')
+        via = 'analyzer' if rng.random() < 0.3 else None
+        impl = seedcc_impl(seedv, targ, one_d, variant, via)
+        clause = ('analyzer/' if via else '') + 'seed_corrcoef' + ('/mixed' if dt2 != dt else '/' + DT_NAME[dt] if dt != 'f8' else '/scaled' if (es, et) != (0, 0) else '')
         out.append(Case('C20 seedcc %d %s %s' % (n, flist(wide(seedv)), flist(wide(targ).reshape(-1))), impl, clause,
                         cmp=cmp_scalar({'d': 1e-12, 's': RTOL['s']}[pr], RTOL[pr]),
                         meta={'op': 'seedcc', 'seed': arr_tok(wide(seedv)), 'targ': arr_tok(wide(targ)), 'one_d': one_d, 'variant': variant,
-                              'dt': dt, 'exp': [es, et]}))
+                              'dt': dt, 'dt2': dt2, 'pr': pr, 'exp': [es, et], 'via': via}))
     # --- analyzer xcorr pair fill (xcorr is quadratic in the data, xcorr_norm and corrcoef are scale-free)
     for _ in range(24 * k):
         nch, n = rng.randint(2, 4), rng.choice([2, 3, 4, 5, 8, rng.randint(2, 24)])
-        data = (nr.rand(nch, n) + 0.5) * 10.0 ** exp2['d']()
-        out += mk_xcorr_cases((rng.choice(['raw', 'norm', 'cc']),), data)
+        dt = dts_r()
+        which = rng.choice(['raw', 'norm', 'cc'])
+        if dt == 'f8':
+            data = (nr.rand(nch, n) + 0.5) * 10.0 ** exp2['d']()
+        else:
+            data = gen_data(nr, [nch, n], False, 'randn', dt, exp2[prec(dt)](), positive=True)
+            w_ = wide(data)
+            if degenerate(data, 1) or (which == 'norm' and not (w_ @ w_.T).all()):      # constant channel / zero-lag product sum 0
+                skipped += 1
+                continue
+        out += mk_xcorr_cases((which,), data, dt)
     # --- every read order of the analyzer's outputs on ONE object (all ordered pairs and all permutations)
     import itertools
     orders = [o for r_ in (2, 3) for o in itertools.permutations(['raw', 'norm', 'cc'], r_)]
@@ -607,12 +877,29 @@ def cases(rng, tier, seed):
     # --- correlation_spectrum (scale-free in each argument separately)
     for _ in range(30 * k):
         n = rng.randint(3, min(nmax, 48))
-        ea, eb = pair_exp['d']()
-        a, b = (nr.randn(n) + 2.0) * 10.0 ** ea, (nr.randn(n) - 1.0) * 10.0 ** eb
+        dt = dts_r()
+        pr = prec(dt)
+        ea, eb = pair_exp[pr]()
+        if dt == 'f8':
+            a, b = (nr.randn(n) + 2.0) * 10.0 ** ea, (nr.randn(n) - 1.0) * 10.0 ** eb
+        else:
+            dtb = dt if rng.random() < 0.7 else rng.choice([d_ for d_ in REAL_DT if prec(d_) == pr])
+            a, b = gen_data(nr, [n], False, 'offset', dt, ea), gen_data(nr, [n], False, 'offset', dtb, eb)
+            if degenerate(a, 0) or degenerate(b, 0):
+                skipped += 1
+                continue
         nm = rng.randint(0, 1)
-        impl = call(lambda: 'ok ' + flist(TSA().correlation_spectrum(a.copy(), b.copy(), norm=bool(nm))[1]))
-        out.append(Case('C20 corrspec %d %s %s' % (nm, flist(a), flist(b)), impl, 'correlation_spectrum' + ('/scaled' if (ea, eb) != (0, 0) else ''),
-                        cmp=cmp_scalar(1e-10 if not nm else 1e-7), meta={'op': 'corrspec', 'a': a.tolist(), 'b': b.tolist(), 'nm': nm, 'exp': [ea, eb]}))
+        with np.errstate(all='ignore'):
+            if nm and not abs(np.corrcoef(wide(a), wide(b))[0, 1]) > 1e-3:      # norm=True divides by the sum of the spectrum = r
+                nm = 0
+        variant = rng.choice(VARIANTS)
+        opts = rng.choice([0, 1, 2, 3])       # bit 0: Fs given, bit 1: norm left out when it is the default
+        impl = corrspec_impl(a, b, nm, variant, opts)
+        out.append(Case('C20 corrspec %d %s %s' % (nm, flist(wide(a)), flist(wide(b))), impl,
+                        'correlation_spectrum' + ('/' + DT_NAME[dt] if dt != 'f8' else '/scaled' if (ea, eb) != (0, 0) else ''),
+                        cmp=cmp_scalar({'d': 1e-10 if not nm else 1e-7, 's': RTOL['s']}[pr], RTOL[pr]),
+                        meta={'op': 'corrspec', 'a': wide(a).tolist(), 'b': wide(b).tolist(), 'nm': nm, 'exp': [ea, eb], 'dt': dt,
+                              'dtb': str(b.dtype), 'variant': variant, 'opts': opts}))
     # --- entropies
     lmax = 60 if tier == 'quick' else 200
     labs = Cycle(LABELS, rng)
@@ -694,6 +981,42 @@ def check_case(c, rng=None):
         return None if c.impl == 'err ValueError' else fail(c, 'accepted', 'unequal lengths accepted')
     if c.impl == 'err InputMutated':
         return fail(c, 'input-mutated', 'the call changed its argument array')
+    if c.impl == 'err Other:SandwichDiffers':
+        return fail(c, 'sandwich-differs', 'the same call with equal arguments, after other calls of the family and after the caller overwrote '
+                    'everything it had been handed, returns something else than the first time')
+    if c.impl == 'err Other:ResultChangedLater':
+        return fail(c, 'result-changed-later', 'a result handed out earlier no longer holds what it held after further calls')
+    if op == 'covvec':
+        cplx = m['cplx']
+        x = un_tok(m['x'], cplx)
+        y = un_tok(m['y'], cplx) if m['y'] else x
+        r = parse_nd(c.impl, cplx)
+        if r is None:
+            return fail(c, 'raises', 'call failed: ' + c.impl[:60])
+        nc, N = x.shape
+        nl = N if m['nlags'] in (None, 'omit') else m['nlags']
+        if r[0] != [nc, y.shape[0], nl]:
+            return fail(c, 'shape', 'result shape %s, want %s' % (r[0], [nc, y.shape[0], nl]))
+        got = np.array(r[1]).reshape(r[0])
+        dts = m['dts']
+        exact = int_kinds(dts)
+        if exact:       # integer recordings: exact rational lagged averages
+            from fractions import Fraction
+            xi, yi = [[int(v) for v in row] for row in x], [[int(v) for v in row] for row in y]
+        want = np.zeros(r[0], dtype=complex)
+        for i in range(nc):
+            for j in range(y.shape[0]):
+                for k_ in range(nl):
+                    if exact:
+                        want[i, j, k_] = float(Fraction(sum(xi[i][t + k_] * yi[j][t] for t in range(N - k_)), N - k_))
+                    else:
+                        want[i, j, k_] = np.vdot(y[j, :N - k_], x[i, k_:]) / (N - k_)
+        pr = 's' if 's' in [prec(d) for d in dts] else 'd'
+        if not close_c(list(got.reshape(-1)), list(want.reshape(-1)), RTOL[pr], ATOLF[pr] * magnitude(x, y)):
+            idx = np.unravel_index(int(np.argmax(np.abs(got - want))), got.shape) if got.size else ()
+            return fail(c, 'value', 'entry %s is %r, the lagged average mean_t x_i[t+k] conj(y_j[t]) of the definition is %r [storage dtypes %s, max|x| = %.3g]'
+                        % (list(map(int, idx)), complex(got[idx]), complex(want[idx]), '/'.join(dts), float(np.abs(x).max())))
+        return None
     if op == 'cov':
         cplx = m['cplx']
         x = un_tok(m['x'], cplx)
@@ -782,7 +1105,7 @@ def check_case(c, rng=None):
         got = parse_flist(c.impl[3:])
         s, t = un_tok(m['seed'], False), un_tok(m['targ'], False)
         want = [float(np.corrcoef(s, row)[0, 1]) for row in t]
-        tol = {'d': 1e-9, 's': RTOL['s']}[prec(m.get('dt', 'f8'))]
+        tol = {'d': 1e-9, 's': RTOL['s']}[m.get('pr', prec(m.get('dt', 'f8')))]
         if len(got) != len(want) or not close_c(got, want, tol, tol * 1e-3):
             return fail(c, 'value', 'not the Pearson coefficient: %r vs %r [storage dtype %s, max|seed| = %.3g, max|target| = %.3g]' % (
                 got[:3], want[:3], m.get('dt', 'f8'), float(np.abs(s).max()), float(np.abs(t).max())))
@@ -799,11 +1122,12 @@ def check_case(c, rng=None):
         if m['which'] == 'cc':
             got = np.array(parse_flist(c.impl[3:]))
             want = np.corrcoef(d).reshape(-1)
-            if len(got) != len(want) or np.abs(got - want).max() > 1e-9:
+            if len(got) != len(want) or np.abs(got - want).max() > {'d': 1e-9, 's': 1e-4}[prec(m.get('dt', 'f8'))]:
                 return fail(c, 'value', 'corrcoef is not the Pearson matrix')
             return None
         got = np.array(parse_flist(c.impl[3:])).reshape(nch, nch, 2 * N - 1)
-        tol = 1e-9 * float(np.abs(got).max())
+        tol = RTOL[prec(m.get('dt', 'f8'))] * float(np.abs(got).max())
+        ctol = {'d': 1e-9, 's': 1e-4}[prec(m.get('dt', 'f8'))]
         norm = m['which'] == 'norm'
         base = m.get('base', c.clause)
         cc = np.corrcoef(d)
@@ -812,7 +1136,7 @@ def check_case(c, rng=None):
                 want = direct_cov(d[i], d[j], True, False, False).real
                 if norm:
                     # definition: the sequence scaled so that its ZERO-LAG entry equals the correlation coefficient
-                    if abs(got[i, j, N - 1] - cc[i, j]) > 1e-9:
+                    if abs(got[i, j, N - 1] - cc[i, j]) > ctol:
                         return fail(c, 'zero-lag-index', 'xcorr_norm[%d,%d] at the true zero lag (index N-1=%d) is %r, corrcoef is %r (the entry made equal to corrcoef is index %d, lag +1)'
                                     % (i, j, N - 1, float(got[i, j, N - 1]), float(cc[i, j]), N))
                     want = want / want[N - 1] * cc[i, j]
@@ -828,17 +1152,21 @@ def check_case(c, rng=None):
                     return f_
         return None
     if op == 'corrspec':
+        if c.impl == 'err IndexError':
+            return fail(c, 'frequencies', 'the frequency axis is not k*Fs/n, k = 0..n//2')
         if not c.impl.startswith('ok '):
             return fail(c, 'raises', 'call failed')
         got = np.array(parse_flist(c.impl[3:]))
         a, b = np.array(m['a']), np.array(m['b'])
         n = len(a)
+        if c.impl == 'err IndexError':
+            return fail(c, 'frequencies', 'the frequency axis is not k*Fs/n, k = 0..n//2')
         if len(got) != n // 2 + 1:
             return fail(c, 'shape', 'length %d, want %d' % (len(got), n // 2 + 1))
         if not m['nm']:
             tot = got[0] + 2 * got[1:(n + 1) // 2].sum() + (got[n // 2] if n % 2 == 0 else 0.0)
             r = float(np.corrcoef(a, b)[0, 1])
-            if not abs(tot - r) <= 1e-9:
+            if not abs(tot - r) <= (1e-9 if prec(m.get('dt', 'f8')) == 'd' else 1e-3):
                 return fail(c, 'sum', 'the spectrum sums to %r, the correlation coefficient is %r [max|x1| = %.3g, max|x2| = %.3g]' % (float(tot), r, float(np.abs(a).max()), float(np.abs(b).max())))
         return None
     if op == 'ent':
@@ -928,25 +1256,31 @@ def replay(d):
         dts = m.get('dts', ['c16' if m['cplx'] else 'f8'] * 2)
         x = restore(m['x'], m['cplx'], dts[0])
         y = restore(m['y'], m['cplx'], dts[1]) if m['y'] else None
-        c = mk_cov_case(m['fn'], x, y, m['axis'], m['al'], m['db'], m['nm'], m.get('variant', 'plain'), tuple(dts), m.get('paths', False))
+        c = mk_cov_case(m['fn'], x, y, m['axis'], m['al'], m['db'], m['nm'], m.get('variant', 'plain'), tuple(dts), m.get('paths', False),
+                        m.get('omit', 0))
+    elif op == 'covvec':
+        dts = m['dts']
+        x = restore(m['x'], m['cplx'], dts[0])
+        y = restore(m['y'], m['cplx'], dts[1]) if m['y'] else None
+        c = mk_covvec_case(m['fn'], x, y, m['nlags'], m.get('variant', 'plain'), tuple(dts))
     elif op == 'fftconv':
         c = mk_fftconv_case(restore(m['a'], m['cplx'], m['dts'][0]), restore(m['b'], m['cplx'], m['dts'][1]), m.get('variant', 'plain'), tuple(m['dts']))
     elif op == 'ent':
         c = mk_ent_case(m['fn'], m['seqs'], m['lag'], m.get('variant', 'plain'), m.get('lab', 'i8'))
     elif op == 'xcorr':
-        c = [q for q in mk_xcorr_cases(tuple(m.get('order', [m['which']])), m['data']) if q.meta['which'] == m['which']][0]
+        c = [q for q in mk_xcorr_cases(tuple(m.get('order', [m['which']])), m['data'], m.get('dt', 'f8')) if q.meta['which'] == m['which']][0]
     elif op == 'len':
         a, b = np.array(m['a']), np.array(m['b'])
         c = Case(d['line'], call(lambda: 'ok ' + flist(U().crosscov(a, b))), d['clause'], meta=m)
     elif op in ('zscore', 'pchange'):
         x = restore(m['x'], False, m.get('dt', 'f8'))
-        c = Case(d['line'], norm_impl(op, x, m['axis'], m.get('variant', 'plain')), d['clause'], meta=m)
+        c = Case(d['line'], norm_impl(op, x, m['axis'], m.get('variant', 'plain'), m.get('via')), d['clause'], meta=m)
     elif op == 'seedcc':
-        s, t = restore(m['seed'], False, m.get('dt', 'f8')), restore(m['targ'], False, m.get('dt', 'f8'))
-        c = Case(d['line'], seedcc_impl(s, t, m['one_d'], m.get('variant', 'plain')), d['clause'], meta=m)
+        s, t = restore(m['seed'], False, m.get('dt', 'f8')), restore(m['targ'], False, m.get('dt2', m.get('dt', 'f8')))
+        c = Case(d['line'], seedcc_impl(s, t, m['one_d'], m.get('variant', 'plain'), m.get('via')), d['clause'], meta=m)
     elif op == 'corrspec':
-        a, b = np.array(m['a']), np.array(m['b'])
-        c = Case(d['line'], call(lambda: 'ok ' + flist(TSA().correlation_spectrum(a, b, norm=bool(m['nm']))[1])), d['clause'], meta=m)
+        a, b = np.array(m['a']).astype(DT[m.get('dt', 'f8')]), np.array(m['b']).astype(m.get('dtb', DT[m.get('dt', 'f8')]))
+        c = Case(d['line'], corrspec_impl(a, b, m['nm'], m.get('variant', 'plain'), m.get('opts', 2)), d['clause'], meta=m)
     else:
         return None
     f = check_case(c)
